@@ -41,6 +41,10 @@ fn bsd_table_strictly_decreasing() {
   // each entry is between 0.4x and 0.6x the previous one (cells halve in size): a transcription guard
   assert!(SMALLER_EDGE2OPEDGE_DIST[k + 1] > 0.4 * SMALLER_EDGE2OPEDGE_DIST[k]
        && SMALLER_EDGE2OPEDGE_DIST[k + 1] < 0.6 * SMALLER_EDGE2OPEDGE_DIST[k], "C16 table entries halve");
+  // transcription guard: the ratio T[d]/T[d+1] decreases monotonically towards 2 (cells become flat):
+  // T[d]/T[d+1] > 2 and T[d]/T[d+1] > T[d+1]/T[d+2]  (a swapped digit in one entry breaks one of them)
+  assert!(SMALLER_EDGE2OPEDGE_DIST[k] > 2.0 * SMALLER_EDGE2OPEDGE_DIST[k + 1], "C16 table: each limit is more than twice the next one");
+  if k < 28 { assert!(SMALLER_EDGE2OPEDGE_DIST[k] * SMALLER_EDGE2OPEDGE_DIST[k + 2] >= SMALLER_EDGE2OPEDGE_DIST[k + 1] * SMALLER_EDGE2OPEDGE_DIST[k + 1] * (1.0 - 1e-7), "C16 table: ratios of consecutive limits decrease towards 2"); }
 }
 
 #[kani::proof]
